@@ -509,6 +509,103 @@ def _wrapper_kind(a: ast.Assign) -> str:
     return "unknown"
 
 
+FLAG_THREADED = ("generate_task_graphs", "get_next_task_graph", "_generate_task_graph")
+
+
+def r10_flags_threaded(ctx: Context) -> None:
+    ctx.rule("C19.R10", "every call that instantiates task graphs from a job graph (generate_task_graphs / get_next_task_graph / "
+                        "_generate_task_graph) hands on the caller's flags, so that re-released and initial copies are built with "
+                        "the same deadline bounds, variance and conditional-resolution settings")
+    n = 0
+    for m in ctx.repo.program_modules():
+        for c in ast.walk(m.tree):
+            if not (isinstance(c, ast.Call) and call_name(c) in FLAG_THREADED):
+                continue
+            fn = enclosing_function(c)
+            if fn is None:
+                continue
+            cls = enclosing_class(c)
+            has_param = "_flags" in [a.arg for a in fn.args.args + fn.args.kwonlyargs]
+            has_attr = cls is not None and any(isinstance(x, ast.Attribute) and x.attr == "_flags" and is_self_attr(x) for x in ast.walk(cls))
+            if not (has_param or has_attr):
+                continue
+            n += 1
+            kw = next((k.value for k in c.keywords if k.arg == "_flags"), None)
+            want = "_flags" if has_param else "self._flags"
+            ctx.check(kw is not None and norm(kw) in ("_flags", "self._flags"), "C19.R10",
+                      f"{qualname(c)}|{call_name(c)}(..., _flags={want})", loc(c), f"_flags={norm(kw) if kw is not None else None}",
+                      f"`{norm(c)[:80]}` does not hand on the flags available as `{want}`: task graphs built here use the no-flags "
+                      "defaults (deadline bounds (0, maxsize), no conditional resolution at submission, no deadline decomposition) and "
+                      "differ from the copies built at load time")
+    ctx.floor("C19.R10", "flag-threading call sites", n, 5)
+
+
+def r9_inventory_ids(ctx: Context) -> None:
+    ctx.rule("C19.R9", "the cluster loader never gives an inventory resource the wildcard id: an entry without an id becomes "
+                       "Resource(name, None) (a fresh distinct instance), so repeated entries of one name add up")
+    mod = ctx.repo.mod("data/worker_loader.py")
+    n = 0
+    for c in ast.walk(mod.tree):
+        if isinstance(c, ast.Call) and call_name(c) == "Resource":
+            idv = next((k.value for k in c.keywords if k.arg == "_id"), c.args[1] if len(c.args) > 1 else None)
+            if idv is None:
+                continue
+            n += 1
+            consts = set()
+            srcs = [idv]
+            if isinstance(idv, ast.Name):
+                fn = enclosing_function(c)
+                srcs = [a.value for a in ast.walk(fn) if isinstance(a, ast.Assign) and any(isinstance(t, ast.Name) and t.id == idv.id for t in a.targets)]
+            for v in srcs:
+                for x in ast.walk(v):
+                    if isinstance(x, ast.Constant) and isinstance(x.value, str):
+                        consts.add(x.value)
+            ctx.check("any" not in consts, "C19.R9", f"{qualname(c)}|inventory resource id is never the wildcard", loc(c), f"id from {[norm(v)[:50] for v in srcs]}",
+                      "a worker's resource can be created with the wildcard id 'any': all id-less entries of one name compare equal, later "
+                      "entries overwrite earlier ones and the worker owns less than the description says")
+    ctx.floor("C19.R9", "Resource constructions in the cluster loader", n, 1)
+
+
+def _is_product_of(term_src: str, a: str, b: str) -> bool:
+    try:
+        e = ast.parse(term_src, mode="eval").body
+    except SyntaxError:
+        return False
+    if not (isinstance(e, ast.BinOp) and isinstance(e.op, ast.Mult)):
+        return False
+    got = {norm(lin.strip_time(e.left)), norm(lin.strip_time(e.right))}
+    return got == {a, b}
+
+
+def r11_release_grids(ctx: Context) -> None:
+    ctx.rule("C19.R11", "release-time grids: PERIODIC = arange(start, completion, period); FIXED = N points from start, one "
+                        "period apart (linspace(start, start + period*N, num=N, endpoint=False))")
+    rp = [c for c in ctx.repo.mod(JOBS).classes() if c.name == "ReleasePolicy"][0]
+    grt = method(rp, "get_release_times")
+    start = lin.lin_of(ast.parse("self._start", mode="eval").body)
+    for tag, fname in (("PERIODIC", "arange"), ("FIXED", "linspace")):
+        br = [n for n in ast.walk(grt) if isinstance(n, ast.If) and tag in norm(n.test)]
+        calls = [c for b in br for st in b.body for c in ast.walk(st) if isinstance(c, ast.Call) and call_name(c) == fname]
+        if not calls:
+            raise AnalysisError(f"ReleasePolicy.get_release_times: np.{fname} for {tag} not found")
+        c = calls[0]
+        key = f"ReleasePolicy.get_release_times|{tag} grid"
+        if tag == "PERIODIC":
+            ok = len(c.args) == 3 and lin.lin_of(c.args[0]) == start and lin.lin_of(c.args[1]) == lin.lin_of(ast.parse("completion_time", mode="eval").body) \
+                and lin.lin_of(c.args[2]) == lin.lin_of(ast.parse("self._period", mode="eval").body)
+            ctx.check(ok, "C19.R11", key, loc(c), "arange(start, completion, period)", f"periodic releases are `{norm(c)[:100]}`")
+        else:
+            okn = any(k.arg == "num" and norm(k.value) == "self._fixed_invocation_nums" for k in c.keywords) and \
+                any(k.arg == "endpoint" and isinstance(k.value, ast.Constant) and k.value.value is False for k in c.keywords)
+            ok = len(c.args) == 2 and lin.lin_of(c.args[0]) == start
+            if ok:
+                d = lin.lin_of(c.args[1]) - start
+                ok = d.const == 0 and len(d.terms) == 1 and list(d.terms.values())[0] == 1 and \
+                    _is_product_of(list(d.terms)[0], "self._period", "self._fixed_invocation_nums")
+            ctx.check(ok and okn, "C19.R11", key, loc(c), "linspace(start, start + period*N, num=N, endpoint=False)",
+                      f"fixed releases are `{norm(c)[:140]}`: not N releases one period apart from the start")
+
+
 def run(ctx: Context) -> None:
     ctx.isolate(r1_no_state_leak)
     ctx.isolate(r2_release_policy_dispatch)
@@ -517,5 +614,8 @@ def run(ctx: Context) -> None:
     ctx.isolate(r5_deadline_dataflow)
     ctx.isolate(r6_closed_loop)
     ctx.isolate(r7_config_type_agreement)
+    ctx.isolate(r9_inventory_ids)
+    ctx.isolate(r10_flags_threaded)
+    ctx.isolate(r11_release_grids)
     from . import c17
     ctx.isolate(c17.r6_weights_in_one_unit, _alias={"C17.R6": "C19.R8"})
